@@ -7,6 +7,8 @@ that caused it; every equation f(a1, a2) = a stays findable (lookup / use list) 
 wrapper keeps proofs under the pair it merged and chains explanation steps without re-using the chain."""
 import ast
 
+from ..normalize import as_func, unroll_literal_loops
+
 from ..core import RuleResult, need
 from ..cfg import cfg_of
 from ..flow import flow_of
@@ -71,7 +73,8 @@ def rule_g2(repo):
             if isinstance(c, ast.Call) and isinstance(c.func, ast.Attribute) and is_name(c.func.value, 'self') and c.func.attr in cls.methods and \
                     c.func.attr not in ('merge', '_propagate', '_add_edge_proof_forest', '_path_to_root') and cls.methods[c.func.attr] not in out:
                 out.append(cls.methods[c.func.attr])
-        return out
+        # `for r in (rep_a1, rep_a2): self.use_list[r].append(eq)` is read as the two appends it stands for
+        return [as_func(h, unroll_literal_loops(h.node)) for h in out]
     f, loops = None, []
     for cand in with_helpers('_propagate'):
         ls = [n for n in walk_no_nested(cand.node, include_root=False) if isinstance(n, ast.For) and 'use_list' in src(n.iter)]
@@ -114,7 +117,7 @@ def rule_g2(repo):
                     'arguments\' classes are merged later', '%s:%d' % (CONGC, n.lineno))
     # merge: both arguments' use lists
     g = repo.func(CONGC, 'CongClosure.merge')
-    apps = [c for c in _calls(g.node, 'append') if 'use_list' in src(c.func.value)]
+    apps = [c for h in with_helpers('merge') for c in _calls(h.node, 'append') if 'use_list' in src(c.func.value)]
     idx = {src(c.func.value.slice) for c in apps if isinstance(c.func.value, ast.Subscript)}
     ok = len(idx) >= 2
     res.add('%s :: CongClosure.merge :: both-arguments' % CONGC, ok,
